@@ -34,6 +34,15 @@ def corpus():
     return uniq
 
 
+def safe(f, *a):
+    try:
+        return f(*a)
+    except RecursionError:
+        return None
+    except Exception as e:
+        return 'EXC %r' % (e,)
+
+
 def main():
     which = sys.argv[1:] or ['tok']
     C = corpus()
@@ -48,6 +57,27 @@ def main():
                     bad += 1
                     if bad < 15:
                         print('TOK', p, v, repr(s[:60]), tok.WHY)
+    if 'tree' in which:
+        import parso
+        from vp import treeoracle as TO
+        from collections import Counter
+        cnt = Counter()
+        for v in ('3.6', '3.10', '3.14'):
+            g = parso.load_grammar(version=v)
+            vi = tuple(int(x) for x in v.split('.'))
+            for p, s in C:
+                m = g.parse(s)
+                for name, r in (('c01', TO.check_roundtrip(m, s)), ('c02', TO.check_wellformed(m)),
+                                ('c03', TO.check_positions(m, s)), ('c05', TO.check_conformance(m, vi)),
+                                ('c07', TO.check_strict_agrees(g, m, s)), ('c13', safe(TO.check_error_listing, g, m)),
+                                ('c20', safe(TO.check_pep8, g, m, s)), ('c19', safe(TO.check_serialisation, m)),
+                                ('c19r', safe(TO.check_refactor, g, m, s, len(s), 'R'))):
+                    if r is not None:
+                        bad += 1
+                        cnt[name] += 1
+                        if cnt[name] <= 12:
+                            print(name.upper(), v, repr(s[:70]), '->', r[:200])
+        print(cnt)
     print('failures:', bad)
 
 
